@@ -259,11 +259,44 @@ func runC20(r *Run) {
 		rc.Violation(fn, pos, construct, why)
 	}
 	// (A) compiler diagnostics
-	for _, d := range diags {
-		fn := fi.at(d.File, d.Line)
-		if fn == nil {
+	// instructions by source line: a diagnostic inside a helper that the normalisation inlined is
+	// attributed to every hot function that now contains instructions of that line
+	byLine := map[string][]*ssa.Function{}
+	for _, g := range hot {
+		if g.Parent() != nil {
 			continue
 		}
+		seenL := map[string]bool{}
+		fns := append([]*ssa.Function{g}, g.AnonFuncs...)
+		for _, h := range fns {
+			eachInstr(h, func(b *ssa.BasicBlock, i int, in ssa.Instruction) {
+				if ip := instrPos(in); ip.IsValid() {
+					ps := p.Fset.Position(ip)
+					k := fmt.Sprintf("%s:%d", strings.TrimPrefix(ps.Filename, p.Dir+"/"), ps.Line)
+					if !seenL[k] {
+						seenL[k] = true
+						byLine[k] = append(byLine[k], g)
+					}
+				}
+			})
+		}
+	}
+	type diagFn struct {
+		d  escapeDiag
+		fn *ssa.Function
+	}
+	var work []diagFn
+	for _, d := range diags {
+		if fn := fi.at(d.File, d.Line); fn != nil {
+			work = append(work, diagFn{d, fn})
+			continue
+		}
+		for _, g := range byLine[fmt.Sprintf("%s:%d", d.File, d.Line)] {
+			work = append(work, diagFn{d, g})
+		}
+	}
+	for _, w := range work {
+		d, fn := w.d, w.fn
 		// anonymous functions are attributed to their parent declaration; hot if the parent is hot
 		if !inHot[fn] {
 			continue
